@@ -53,7 +53,24 @@ def run(prop, tier):
             jobs.append((len(jobs), "sugar", p, {}))
     recs = replay_passes.run_many(jobs)
     vrecs = [{"id": r["id"], "pass": "sugar", "in": r["in"], "out": r["out"], "exc": r["exc"],
-              "flags": {"compiles": r["flags"]["compiles"], "shape": False}} for r in recs]
+              "flags": {"compiles": r["flags"]["compiles"], "shape": False, "malformed": False}} for r in recs]
+    # malformed comprehensions (not expressible as terms): tuple targets and async, in several positions
+    for text in ["lambda e: [a for (a, b) in e.jets]", "lambda e: [a + b for a, b in e.pairs if a > 1]",
+                 "lambda e: (a for (a, b) in e.jets)", "lambda e: [x async for x in e.jets]",
+                 "lambda e: (x async for x in e.jets if x.pt > 1)",
+                 "lambda e: [[q for (q, r) in j.trks] for j in e.jets]",
+                 "lambda e: e.jets.Select(lambda j: [t async for t in j.trks])",
+                 "lambda e: [j for j in [a for [a, b] in e.jets]]"]:
+        rid = len(vrecs)
+        rec = {"id": rid, "pass": "sugar", "in": codec.T("str", s=text), "out": codec.T("absent"), "exc": "",
+               "flags": {"compiles": True, "shape": False, "malformed": True}}
+        try:
+            resolve_syntatic_sugar(ast.parse(text).body[0].value)
+        except Exception as e:
+            rec["exc"] = type(e).__name__
+        vrecs.append(rec)
+        recs.append({"id": rid, "in": rec["in"], "out": rec["out"], "exc": rec["exc"], "flags": rec["flags"]})
+        jobs.append((rid, "sugar", rec["in"], {}))
     base = len(vrecs)
 
     # ---------------- constructors
@@ -112,6 +129,8 @@ def run(prop, tier):
             rec["msg"] = str(e)[:120]
         crecs.append(rec)
     allrecs = vrecs + [{k: r[k] for k in ("id", "pass", "sig", "shape", "out", "exc", "in", "flags")} for r in crecs]
+    for r in allrecs:
+        r["flags"].setdefault("malformed", False)
     verdicts, vst = common.validate(prop, "sugar", "TracePass", allrecs)
     rep.add_tlc(vst)
     rep.traces = len(allrecs)
